@@ -323,13 +323,13 @@ macro_rules! spawn_derived {
                     }
 
                     while rx.next().await.is_some() {
-                        let update_if_necessary = !owner.paused() && if $should_track {
+                        let update_if_necessary = !owner.paused() && inner.upgrade().is_some_and(|inner| if $should_track {
                             any_subscriber
-                                .with_observer(|| any_subscriber.update_if_necessary())
+                                .with_observer(|| ArcAsyncDerivedInner::needs_rerun(&inner))
                         } else {
                             any_subscriber
-                                .with_observer_untracked(|| any_subscriber.update_if_necessary())
-                        };
+                                .with_observer_untracked(|| ArcAsyncDerivedInner::needs_rerun(&inner))
+                        });
                         if update_if_necessary || first_run.is_some() {
                             match (value.upgrade(), inner.upgrade(), wakers.upgrade(), loading.upgrade()) {
                                 (Some(value), Some(inner), Some(wakers), Some(loading)) => {
